@@ -692,6 +692,94 @@ theorem noArgs_shape (name : Bytes) (body : S → Option Err × S) (hb : BodyPur
       · intro p hp; simp at hp
       · intro e he; simp at he; rw [he]; simp
 
+/-- `Shape` relative to an arbitrary start state, possibly with no new event -/
+def ShapeFrom (rest t' : Bytes) (s2 s3 : S) : Prop :=
+  ∃ (c2 t'' : Bytes) (ended : Bool) (new : List Event),
+    t' = c2 ++ t'' ∧ (ended = true → t'' = []) ∧
+    s3.inp = (if ended then rest else t'' ++ 13 :: 10 :: rest) ∧
+    s3.pos = s2.pos + c2.length + (if ended then 2 else 0) ∧
+    s3.roles = List.replicate (c2.length + (if ended then 2 else 0)) Role.text ++ s2.roles ∧
+    s3.lit = none ∧ s3.crlf = ended ∧
+    s3.evs = new ++ s2.evs ∧ new.filter isTagged = [] ∧ (∀ p, Event.cont p ∉ new) ∧
+    (∀ e ∈ new, e ≠ Event.opaque)
+
+/-- the handler gave up at a state on the line -/
+theorem shapeFrom_stop (rest t' c tx : Bytes) (s sx : S) (htc : t' = c ++ tx) (adv : Adv s sx c)
+    (hix : sx.inp = tx ++ 13 :: 10 :: rest) (hl : s.lit = none) (hc : sx.crlf = false) :
+    ShapeFrom rest t' s sx :=
+  ⟨c, tx, false, [], htc, by simp, by simp [hix], by simp [adv.pos], by simp [adv.roles],
+    by rw [adv.lit, hl], hc, by simp [adv.evs], rfl, by simp, by simp⟩
+
+/-- steps on the line, then something with a shape -/
+theorem shapeFrom_trans (rest t' c tx : Bytes) (s sx s3 : S) (htc : t' = c ++ tx) (adv : Adv s sx c)
+    (h : ShapeFrom rest tx sx s3) : ShapeFrom rest t' s s3 := by
+  obtain ⟨c2, t'', ended, new, h1, h2, h3, h4, h5, h6, h7, h8, h9, h10, h11⟩ := h
+  refine ⟨c ++ c2, t'', ended, new, by rw [htc, h1, List.append_assoc], h2, h3, ?_, ?_, h6, h7, ?_, h9, h10, h11⟩
+  · rw [h4, adv.pos, List.length_append]; omega
+  · rw [h5, adv.roles, ← List.append_assoc, List.replicate_append_replicate, List.length_append]
+    congr 2; omega
+  · rw [h8, adv.evs]
+
+/-- ExpectCRLF and a pure body, from a state on the line -/
+theorem noArgs_core (body : S → Option Err × S) (hb : BodyPure body) (rest t' : Bytes) (sd : S)
+    (hi' : sd.inp = t' ++ 13 :: 10 :: rest) (ht : noEol t') (hl' : sd.lit = none)
+    (hsp : t' ≠ [] → t'.getLast? ≠ some 32) :
+    ShapeFrom rest t' sd (noArgs sd body).2 := by
+  cases t' with
+  | nil =>
+    simp only [List.nil_append] at hi'
+    obtain ⟨sx, hcr, hadv, hcrlf, hinp⟩ := crlfP_at_eol sd rest hl' hi'
+    have hexp : sd.expectCRLF = (true, sx) := by
+      unfold S.expectCRLF; rw [hcr]; simp [S.expect]
+    obtain ⟨bi, bp, br, bl, bc, new, be, bt, bn, bo⟩ := hb sx
+    have : noArgs sd body = body sx := by unfold noArgs; rw [hexp]
+    rw [this]
+    refine ⟨[], [], true, new, by simp, fun _ => rfl, ?_, ?_, ?_, ?_, ?_, ?_, bt, bn, bo⟩
+    · simp [bi, hinp]
+    · simp [bp, hadv.pos]
+    · simp [br, hadv.roles]
+    · rw [bl, hadv.lit, hl']
+    · rw [bc, hcrlf]
+    · rw [be, hadv.evs]
+  | cons b t =>
+    obtain ⟨hf, hc, c2, t'', htc, hadv⟩ := crlfP_mid sd b t rest hl' hi' ht (hsp (by simp))
+    have hexp : sd.expectCRLF = (false, (sd.crlfP).2.expect false) := by
+      unfold S.expectCRLF
+      have : sd.crlfP = (false, sd.crlfP.2) := Prod.ext hf rfl
+      rw [this]
+    have : noArgs sd body = (((sd.crlfP).2.expect false).err, (sd.crlfP).2.expect false) := by
+      unfold noArgs; rw [hexp]
+    rw [this]
+    have hi3 : (sd.crlfP).2.inp = t'' ++ 13 :: 10 :: rest := by
+      have := hadv.inp
+      rw [hi', htc, List.append_assoc] at this
+      exact (List.append_cancel_left this).symm
+    refine ⟨c2, t'', false, [], htc, by simp, ?_, ?_, ?_, ?_, ?_, ?_, rfl, by simp, by simp⟩
+    · simp [S.expect, hi3]
+    · simp [S.expect, hadv.pos]
+    · simp [S.expect, hadv.roles]
+    · simp [S.expect, hadv.lit, hl']
+    · simp [S.expect, hc]
+    · simp [S.expect, hadv.evs]
+
+/-- with the ghost dispatch event in front, a `ShapeFrom` is a `Shape` -/
+theorem shape_of_from (name rest t' : Bytes) (s2 s3 : S)
+    (h : ShapeFrom rest t' (s2.emit (.dispatch name)) s3) : Shape rest t' s2 s3 := by
+  obtain ⟨c2, t'', ended, new, h1, h2, h3, h4, h5, h6, h7, h8, h9, h10, h11⟩ := h
+  refine ⟨c2, t'', ended, new ++ [Event.dispatch name], h1, h2, h3, h4, h5, h6, h7, ?_, by simp, ?_, ?_, ?_⟩
+  · rw [h8]; simp [S.emit]
+  · simp [List.filter_append, h9, isTagged]
+  · intro p hp
+    simp only [List.mem_append, List.mem_singleton] at hp
+    rcases hp with hp | hp
+    · exact h10 p hp
+    · cases hp
+  · intro e he
+    simp only [List.mem_append, List.mem_singleton] at he
+    rcases he with he | he
+    · exact h11 e he
+    · rw [he]; simp
+
 /-- handlers of the form ExpectCRLF; then something that neither reads nor answers -/
 def NoArgHandler (h : Handler) : Prop :=
   ∃ body, BodyPure body ∧ h = .run (fun s => noArgs s body)
